@@ -113,7 +113,8 @@ def gen_ops(rng, world, n_ev, max_ops=25, allow_faults=True):
         below = [a for a in closure(world, f) if world['level'].get(a, 0) == 0]
         deep = [a for a in below
                 if world['level'][f] >= 2 and a not in world['deps'][f]]
-        pat = rng.choice(['ese', 'ese', 'range', 'sse', 'name', 'ege'])
+        pat = rng.choice(['ese', 'ese', 'range', 'sse', 'name', 'ege', 'alt',
+                          'alt'])
         tgt = rng.choice(deep or below or inputs)
         if pat == 'ese':
             ops += [op_eval(f), op_set(tgt), op_eval(f)]
@@ -140,6 +141,10 @@ def gen_ops(rng, world, n_ev, max_ops=25, allow_faults=True):
             else:
                 ops += [op_set(), {'op': 'eval', 'ev': ev(), 'target': nm},
                         {'op': 'get', 'ev': ev(), 'target': a}]
+        elif pat == 'alt':
+            ops += [op_eval(f)]
+            for _ in range(rng.randint(2, 4)):
+                ops += [op_set(rng.choice(below or inputs)), op_eval(f)]
         elif pat == 'ege':
             ops += [op_eval(f), op_get(f), op_set(tgt), op_get(f), op_eval(f),
                     op_get(f)]
@@ -150,8 +155,19 @@ def gen_ops(rng, world, n_ev, max_ops=25, allow_faults=True):
             ops.append(op_set())
         elif r < 0.80:
             ops.append(op_eval())
-        elif r < 0.95:
+        elif r < 0.93:
             ops.append(op_get())
+        elif r < 0.96:
+            # the model is saved (possibly unsuccessfully) in between
+            p = {'op': 'persist', 'path': rng.choice(
+                ['/simfs/h.json', '/simfs/h.gz'])}
+            if allow_faults and rng.random() < 0.6:
+                p['fault'] = rng.choice([
+                    {'kind': 'enospc', 'after_bytes': rng.choice(
+                        [0, 10, 200, 1500])},
+                    {'kind': 'eio', 'at': 1},
+                    {'kind': 'interrupt', 'step': rng.randint(1, 400)}])
+            ops.append(p)
         else:
             ops.append({'op': 'clock_jump',
                         'delta': rng.choice([86400, -86400, 3.15e7, -3.15e7,
@@ -184,6 +200,7 @@ def gen_case(seed, tier='quick'):
              'fault_class': 'faulty' if faulty else 'fault_free',
              # how the model under test came to be: the statement speaks of
              # "a model", whatever its provenance
+             'decoy': rng.random() < 0.25,
              'provenance': rng.choice(
                  ['compiled'] * 5 + ['extracted'] * 2 + ['restored'] * 2 +
                  ['restored+extracted'])}
@@ -214,19 +231,19 @@ class History:
     def twin(self):
         return worlds.world_model(self.world, cells=self.inputs)
 
-    def twin_outcome(self, addr, count_steps=False):
+    def twin_outcome(self, addr, tag=0):
         from xlcalculator import Evaluator
-        ev = Evaluator(self.twin(), UserFuncs(None).namespace())
+        ev = Evaluator(self.twin(), UserFuncs(None).namespace(tag=tag))
         st = Stepper(max_steps=SAFETY_STEPS)
         with st:
             out = outcome_of(ev.evaluate, addr)
         self.bump('sim_steps', st.steps)
         return out, st.steps
 
-    def truths(self, addrs):
+    def truths(self, addrs, tag=0):
         """Twin values of several cells (one shared second twin)."""
         from xlcalculator import Evaluator
-        ev = Evaluator(self.twin(), UserFuncs(None).namespace())
+        ev = Evaluator(self.twin(), UserFuncs(None).namespace(tag=tag))
         out = {}
         for a in addrs:
             o = outcome_of(ev.evaluate, a)
@@ -279,13 +296,16 @@ class History:
         names = world['names']
         with Ambient(case['seed']) as amb:
             ast_nodes.MAX_EMPTY = knobs.get('max_empty', 100)
+            if knobs.get('decoy'):
+                worlds.run_decoy(world, UserFuncs(None).namespace())
+                self.bump('probe:decoy_model_first')
             model = worlds.world_model(world, stale=True)
             model = self.provenance(model, knobs.get('provenance', 'compiled'))
             if self.viol is not None:
                 return self
             uf = UserFuncs(knobs.get('fail_on'))
-            evs = [Evaluator(model, uf.namespace())
-                   for _ in range(knobs.get('n_evaluators', 1))]
+            evs = [Evaluator(model, uf.namespace(tag=k))
+                   for k in range(knobs.get('n_evaluators', 1))]
             self.inputs = dict(world['cells'])
             level = world['level']
             acc = {}        # formula cell -> acceptable get() values
@@ -306,6 +326,9 @@ class History:
                     self.bump('fault:clock_jump')
                     self.bump('faults_fired')
                     self.log.append([seq, 'clock_jump', op['delta']])
+                    continue
+                if kind == 'persist':
+                    self.do_persist(seq, op, model)
                     continue
                 ev = evs[op.get('ev', 0) % len(evs)]
                 target = self.spell(op['target'])
@@ -348,13 +371,42 @@ class History:
                     pending_set = False
         return self
 
+    def do_persist(self, seq, op, model):
+        """Saving the model (successfully or not) is not an input change:
+        everything afterwards is judged as before."""
+        from ..seams import _Installed
+        fs = _Installed.fs
+        f = op.get('fault')
+        wf, at = None, None
+        if f is not None:
+            if f['kind'] == 'interrupt':
+                at = f['step']
+            elif f['kind'] == 'eio':
+                wf = {'kind': 'eio', 'at': f['at']}
+            else:
+                wf = {'kind': 'enospc', 'after_bytes': f['after_bytes']}
+        fs.reset_op(bufsize=64, write_fault=wf)
+        st = Stepper(interrupt_at=at, max_steps=SAFETY_STEPS)
+        with st:
+            out = outcome_of(model.persist_to_json_file, op['path'])
+        fired = list(fs.op_fired) + (
+            ['interrupt_in_persist'] if st.fired == 'interrupt' else [])
+        fs.reset_op()
+        for k in fired:
+            self.bump(f'fault:{k}')
+            self.bump('faults_fired')
+        self.bump('probe:persist_between_evaluations')
+        self.log.append([seq, 'persist', op['path'], fired, out[0]])
+        self.sig.append('p' + (fired[0][:1] if fired else ''))
+
     def do_eval(self, seq, op, ev, uf, model, target, addr, via, acc,
                 evaluated, pending_set):
         world = self.world
         level = world['level']
-        want, steps = self.twin_outcome(addr)
+        tag = op.get('ev', 0) % self.case['knobs'].get('n_evaluators', 1)
+        want, steps = self.twin_outcome(addr, tag=tag)
         clos = [a for a in closure(world, addr) if level.get(a, 0) > 0]
-        truth = self.truths(clos) if clos else {}
+        truth = self.truths(clos, tag) if clos else {}
         # ---- state coverage (before the call) ---------------------------
         def status(a):
             cell = model.cells.get(a)
@@ -463,7 +515,7 @@ def _run_case(case):
     viol = h.viol
     stats, log = h.stats, h.log
     # oracle 4: name/address equivalence (fault-free histories only)
-    has_fault = any(o.get('fault') or o['op'] == 'clock_jump'
+    has_fault = any(o.get('fault') or o['op'] in ('clock_jump', 'persist')
                     for o in case['ops']) or \
         case['knobs'].get('fail_on') is not None
     if viol is None and case['world']['names'] and not has_fault and any(
@@ -569,6 +621,10 @@ def reducers(case):
     if k.get('fail_on') is not None:
         c = copy.deepcopy(case)
         c['knobs']['fail_on'] = None
+        yield c
+    if k.get('decoy'):
+        c = copy.deepcopy(case)
+        c['knobs']['decoy'] = False
         yield c
     if k.get('provenance', 'compiled') != 'compiled':
         for how in ('compiled', 'extracted', 'restored'):
